@@ -72,9 +72,16 @@ func guarded(f func()) string {
 	case r := <-done:
 		return r
 	case <-t.C:
+		hangs++
 		return "hang"
 	}
 }
+
+// hangs counts calls that did not return; each leaves a spinning goroutine behind, so after a few of
+// them the generators stop (the hangs found are reported; nothing else can be learnt at that speed).
+var hangs = 0
+
+const maxHangs = 3
 
 type alphabet struct {
 	ids   map[string]int
@@ -579,6 +586,10 @@ var randAlphabet = []string{"a", "b", "c", "z", " ", " ", " ", "-", "\n", "世",
 
 func (st *state) emitText(s string, wlo, whi int, split int, styles []int) {
 	r := st.r
+	if hangs >= maxHangs {
+		r.Count("skipped-after-hangs")
+		return
+	}
 	// plain
 	pc := buildPlain(s, whi)
 	if !pc.ok {
@@ -613,6 +624,10 @@ type state struct {
 
 func (st *state) emitDraw(s string, w, h int, split int, styles []int) {
 	r := st.r
+	if hangs >= maxHangs {
+		r.Count("skipped-after-hangs")
+		return
+	}
 	pc := buildPlain(s, w)
 	if pc.ok {
 		r.Emit(pc.op("DP", w, h), pc.runDraw(w, h))
@@ -630,6 +645,9 @@ func (st *state) emitDraw(s string, w, h int, split int, styles []int) {
 }
 
 func (st *state) emitHard(s string) {
+	if hangs >= maxHangs {
+		return
+	}
 	rc := buildRich([]string{s}, []int{0})
 	al, ws, fl := alphaFields(&rc.a, false)
 	if len(rc.a.names) == 0 {
